@@ -180,31 +180,76 @@ End Shape.
 (** ** Inert flags
 
     The current flag (if any) already holds its value: [check_ambiguity] and
-    [complete_flag] are no-ops and the machine is not waiting. *)
+    [complete_flag] are no-ops and the machine is not waiting.
+
+    Since repair 9120dc5 [complete_flag] judges "needed a value and got none" by
+    [flag_got_value], which is reset only in [switch_to_flag] and set by
+    [see_value]; so a *stale* flag (one that stays in [self.flag] while later
+    positionals / task names are handled) is harmless exactly when it does not
+    need a value any more: [needs_value r && negb got = false]. *)
+Definition needs_value (r : rarg) : bool :=
+  akind_eqb (a_kind (r_spec r)) KList
+  || (takes_value (r_spec r) && negb (a_optional (r_spec r))).
+
 Definition inert (m : machine) : Prop :=
   match m_flag m with
   | None => True
   | Some f => exists r, get_arg m f = Some r /\ r_raw r = true /\
-                        (akind_eqb (a_kind (r_spec r)) KList && negb (m_got m)) = false
+                        (needs_value r && negb (m_got m)) = false
   end.
+
+Lemma needs_list r got :
+  (needs_value r && negb got) = false ->
+  (akind_eqb (a_kind (r_spec r)) KList && negb got) = false.
+Proof. unfold needs_value. destruct (akind_eqb _ _), got; simpl; auto. Qed.
+
+Lemma needs_required r got :
+  (needs_value r && negb got) = false ->
+  (takes_value (r_spec r) && negb got && negb (a_optional (r_spec r))) = false.
+Proof.
+  unfold needs_value.
+  destruct (akind_eqb _ _), (takes_value _), (a_optional _), got; simpl; auto.
+Qed.
+
+Lemma needs_value_bool r : a_kind (r_spec r) = KBool -> needs_value r = false.
+Proof. intros K. unfold needs_value, takes_value. rewrite K. reflexivity. Qed.
+
+Lemma needs_value_no_value r :
+  akind_eqb (a_kind (r_spec r)) KList = false -> takes_value (r_spec r) = false ->
+  needs_value r = false.
+Proof. intros K T. unfold needs_value. rewrite K, T. reflexivity. Qed.
+
+Lemma needs_value_optional r :
+  akind_eqb (a_kind (r_spec r)) KList = false -> a_optional (r_spec r) = true ->
+  needs_value r = false.
+Proof. intros K T. unfold needs_value. rewrite K, T, andb_false_r. reflexivity. Qed.
 
 Lemma inert_waiting m : inert m -> waiting m = false.
 Proof.
   unfold inert, waiting, flag_arg. destruct (m_flag m) as [f|]; [|reflexivity].
   intros [r [G [R K]]]. rewrite G. destruct (takes_value (r_spec r)); [|reflexivity].
-  rewrite K, R. reflexivity.
+  rewrite (needs_list _ _ K), R. reflexivity.
 Qed.
 
+(** the "stale flag is inert" lemma *)
 Lemma inert_complete_flag m : inert m -> complete_flag m = Ok m.
 Proof.
   unfold inert, complete_flag, flag_arg. destruct (m_flag m) as [f|]; [|reflexivity].
-  intros [r [G [R K]]]. rewrite G, R. simpl. rewrite andb_false_r. reflexivity.
+  intros [r [G [R K]]]. rewrite G, (needs_required _ _ K), R. reflexivity.
 Qed.
 
 Lemma inert_check_ambiguity p v m : inert m -> check_ambiguity p v m = Ok m.
 Proof.
   unfold inert, check_ambiguity, flag_arg. destruct (m_flag m) as [f|]; [|reflexivity].
   intros [r [G [R K]]]. rewrite G, R. destruct (negb (a_optional (r_spec r))); reflexivity.
+Qed.
+
+Lemma stale_flag_is_inert m :
+  inert m -> complete_flag m = Ok m /\ waiting m = false /\
+             forall p v, check_ambiguity p v m = Ok m.
+Proof.
+  intros I. split; [exact (inert_complete_flag m I)|]. split; [exact (inert_waiting m I)|].
+  intros p v. exact (inert_check_ambiguity p v m I).
 Qed.
 
 Lemma inert_rollback m t sp : inert m -> rollback m t sp = Ok sp.
